@@ -47,13 +47,13 @@ Proof. exact c01_goal_restricted_sym. Qed.
    builds included — provided commands were deterministic in every build of the
    history (det_history; only a user planting decodable state files is excluded) *)
 Theorem C01_invariants_after_every_history : forall t0 (ops : list (op sym)),
-  0 < t0 -> det_history_sym (init_world Fine t0) ops ->
+  det_history_sym (init_world Fine t0) ops ->
   disk_inv sym_eqb SContent (run_sym ops (init_world Fine t0)) /\ hist_sound_sym (run_sym ops (init_world Fine t0)).
 Proof. exact reach_hist_sound_partial_sym. Qed.
 
 (* hence the property as stated: after any such history, a successful build leaves from-scratch contents *)
 Theorem C01_every_history : forall t0 (ops : list (op sym)) goal w1 tbl pack,
-  0 < t0 -> det_history_sym (init_world Fine t0) ops ->
+  det_history_sym (init_world Fine t0) ops ->
   init_dir sym (run_sym ops (init_world Fine t0)) = Ok (w1, tbl) ->
   get_nodes sym w1 RULES_PATH goal = Ok pack ->
   Forall det_node (p_nodes pack) ->
@@ -68,7 +68,7 @@ Proof. exact c01_every_history_sym_partial. Qed.
    vm_compute, also reproduced on the SHA-256 instance) *)
 Theorem C01_only_last_build_deterministic_refuted :
   ~ (forall t0 (ops : list (op sym)) goal w1 tbl pack,
-       0 < t0 -> Forall (safe_op sym) ops ->
+       Forall (safe_op sym) ops ->
        init_dir sym (run_sym ops (init_world Fine t0)) = Ok (w1, tbl) ->
        get_nodes sym w1 RULES_PATH goal = Ok pack ->
        Forall det_node (p_nodes pack) ->
